@@ -220,7 +220,8 @@ def sdesc_local(B, l, depth=0):
             c = _short(t.get('callee') or callee_of(t) or '?')
             if c.startswith('box_assume_init_into_vec'):
                 return 'vec!'
-            if c in ('deref', 'deref_mut', 'as_ref', 'as_mut', 'borrow', 'branch', 'into', 'from', 'to_owned', 'clone', 'to_path_buf', 'as_slice', 'as_str', 'must_use') and t['args']:
+            if c in ('deref', 'deref_mut', 'as_ref', 'as_mut', 'borrow', 'borrow_mut', 'branch', 'into', 'from', 'to_owned', 'clone', 'to_path_buf', 'as_slice', 'as_str', 'must_use',
+                     'as_path', 'as_os_str', 'as_mut_slice', 'as_deref', 'into_boxed_path', 'into_path_buf', 'as_mut_str') and t['args']:
                 return sdesc_operand(B, t['args'][0], depth)
             return '%s(%s)' % (c, ','.join(sdesc_operand(B, a, depth + 1) for a in t['args'][:3]))
         return sdesc_rv(B, d[4], depth)
